@@ -273,11 +273,20 @@ def main(argv=None):
                 if oid in known_obl:
                     known_hits.append((known_obl[oid].get("id", known_obl[oid].get("id_regex")), known_obl[oid]["what"]))
                     continue
+                if bool(e.get("models")) and all(m.get("overapprox") for m in e["models"]) and not confirmed:
+                    undecided_notes.append(f"obligation {oid}: no longer discharged, but only on paths that read over-approximated state, and no native input reproduces it")
+                    continue
                 violations.append((oid, path, confirmed, what or f"no longer discharged (solver: {e.get('reasons')})"))
                 continue
             path, confirmed, what = replay_model(pid, oid, e, outdir)
             if oid in known_obl:
                 known_hits.append((known_obl[oid].get("id", known_obl[oid].get("id_regex")), known_obl[oid]["what"]))
+                continue
+            over = bool(e.get("models")) and all(m.get("overapprox") for m in e["models"])
+            if over and not confirmed:
+                # every failing path read a value the sidecar OVER-approximates (e.g. "a class-level memo table holds anything"):
+                # a correct refinement of the code may need an invariant the sidecar does not state; only a native witness decides
+                undecided_notes.append(f"obligation {oid}: fails only on paths that read over-approximated state and no native input reproduces it")
                 continue
             if (oid.endswith("::uncaught-exception") or "::reaches-" in oid or oid in getattr(ded["module"], "NEEDS_WITNESS", ())) and not confirmed:
                 # harness-level obligation: the ABSTRACT run raised / did not reach its end.  Without a native witness this says
